@@ -1114,6 +1114,13 @@ def special_rotations():
                     ("eps64*2", 2.0 ** -51), ("sqrt-eps64", 2.0 ** -26)):
         ax = [0.6, -0.64, 0.48]
         add(f"angle-{nm}", _qaxis(ax, ang), [c * ang for c in ax])
+    # exact coincidences of two data-dependent quantities (|v| == |w| bit for bit: quarter turns, both hemispheres,
+    # axis-aligned and generic), exact half turn (w == 0), t2 == ±1 exactly is `lock±pure` above
+    r2 = math.sqrt(0.5)
+    for nm, q in (("tie-quarter-x", [r2, 0., 0., r2]), ("tie-quarter-x-neg", [r2, 0., 0., -r2]), ("tie-quarter-xy", [0.5, 0.5, 0., r2]),
+                  ("tie-quarter-generic-neg", [-0.5, 0., 0.5, -r2]), ("tie-half-exact", [0., 1., 0., 0.]), ("tie-equal-components", [0.5, 0.5, 0.5, 0.5])):
+        add(nm, q, None)
+    add("tie-angle-pi/2-vector", _qaxis([0, 0, 1], math.pi / 2), [0., 0., math.pi / 2])
     add("w-negative", [-c for c in _qaxis([0.4, 0.5, -0.76], 4.5)], None)
     return out
 
@@ -2053,6 +2060,7 @@ def snapshot_globals():
 
 PASS2 = ["argcombo", "errors", "gradmode", "duck", "copies", "ownership", "interleave"]
 PASS3 = ["static", "torchb", "sig", "effects"]
+PASS4 = ["defaults", "modeorder", "subclass", "large"]
 
 
 def guarded(ctx: Ctx, name, fn):
@@ -2075,9 +2083,15 @@ def guarded(ctx: Ctx, name, fn):
 
 def run(ctx: Ctx):
     torch.set_grad_enabled(True)
+    # one intra-op thread: every tensor here is tiny or elementwise; on the shared box the OpenMP pool of 4 threads made
+    # a 65537-item Sim3.Log take 30 s (0.07 s single-threaded) when the machine was oversubscribed
+    torch.set_num_threads(1)
     originals()                      # remember the pristine torch attributes before anything patches them
     snap = snapshot_globals()
     names = stream_regen(ctx)
+    # first of all the grad-mode orders on fresh keys: a module-level cache must still be empty for them
+    from . import util_c06d as B4a
+    guarded(ctx, "modeorder", lambda: B4a.stream_modeorder(ctx))
     # deterministic corner corpora first (identical for every seed) …
     guarded(ctx, "persistent", lambda: stream_persistent(ctx))
     guarded(ctx, "regime", lambda: stream_regime(ctx))
@@ -2088,6 +2102,10 @@ def run(ctx: Ctx):
     guarded(ctx, "torchb", lambda: B3.stream_torchb(ctx))
     guarded(ctx, "sig", lambda: B3.stream_sig(ctx))
     guarded(ctx, "effects", lambda: B3.stream_effects(ctx, names))
+    from . import util_c06d as B4
+    guarded(ctx, "defaults", lambda: B4.stream_defaults(ctx, names))
+    guarded(ctx, "subclass", lambda: B4.stream_subclass(ctx))
+    guarded(ctx, "large", lambda: B4.stream_large(ctx))
     from . import util_c06b as B2
     for nm2 in PASS2:
         guarded(ctx, nm2, (lambda f: lambda: f(ctx))(getattr(B2, "stream_" + nm2)))
@@ -2121,7 +2139,8 @@ def search(ctx: Ctx):
                    lambda: stream_ctor(ctx), lambda: stream_unary(ctx), lambda: stream_regime(ctx), lambda: stream_purity(ctx),
                    lambda: stream_persistent(ctx), lambda: stream_alias(ctx), lambda: stream_reuse(ctx)) + tuple(
                 (lambda f: lambda: f(ctx))(getattr(__import__("harness.util_c06b", fromlist=["x"]), "stream_" + n2)) for n2 in PASS2) + tuple(
-                (lambda f: lambda: f(ctx))(getattr(__import__("harness.util_c06c", fromlist=["x"]), "stream_" + n3)) for n3 in PASS3 if n3 != "static"):
+                (lambda f: lambda: f(ctx))(getattr(__import__("harness.util_c06c", fromlist=["x"]), "stream_" + n3)) for n3 in PASS3 if n3 != "static") + tuple(
+                (lambda f: lambda: f(ctx))(getattr(__import__("harness.util_c06d", fromlist=["x"]), "stream_" + n4)) for n4 in PASS4):
             st()
             if ctx.failures:
                 return
@@ -2150,6 +2169,10 @@ def replay(ctx: Ctx, case) -> bool:
             compare_handled(ctx, c, ex, ctx.driver.run(ex["lines"]))
     elif kind == "unary":
         check_unary(ctx, c)
+    elif kind in ("defaults", "modeorder", "subclass", "large"):
+        from . import util_c06d as B4
+        torch.set_num_threads(1)
+        getattr(B4, "stream_" + kind)(ctx)
     elif kind in ("static", "torchb", "sig", "effects"):
         from . import util_c06c as B3
         getattr(B3, "stream_" + kind)(ctx)
@@ -2165,7 +2188,8 @@ def replay(ctx: Ctx, case) -> bool:
          "handled": lambda: stream_handled(ctx, nm), "ctor": lambda: stream_ctor(ctx), "unary": lambda: stream_unary(ctx),
          "purity": lambda: stream_purity(ctx), "bcast": lambda: stream_bcast(ctx),
          **{n2: (lambda n2=n2: getattr(__import__("harness.util_c06b", fromlist=["x"]), "stream_" + n2)(ctx)) for n2 in PASS2},
-         **{n3: (lambda n3=n3: getattr(__import__("harness.util_c06c", fromlist=["x"]), "stream_" + n3)(ctx)) for n3 in PASS3}}[which]()
+         **{n3: (lambda n3=n3: getattr(__import__("harness.util_c06c", fromlist=["x"]), "stream_" + n3)(ctx)) for n3 in PASS3},
+         **{n4: (lambda n4=n4: getattr(__import__("harness.util_c06d", fromlist=["x"]), "stream_" + n4)(ctx)) for n4 in PASS4}}[which]()
     elif kind == "regime":
         check_regime(ctx, c)
     elif kind == "regime2":
